@@ -329,4 +329,37 @@ mod tests {
 
         Ok(())
     }
+
+    #[test]
+    fn test_samples_with_a_sample_count_that_is_not_backed_by_any_series()
+    -> Result<(), Box<dyn std::error::Error>> {
+        use vcf::header::record::value::{Map, map::Contig};
+
+        let mut header = vcf::Header::builder()
+            .add_contig("sq0", Map::<Contig>::new())
+            .add_sample_name("sample0")
+            .build();
+
+        *header.string_maps_mut() = vcf::header::StringMaps::try_from(&header)?;
+
+        let mut record = Record::default();
+
+        // n_sample = 1, n_fmt = 0
+        let site_buf = record.fields_mut().site_buf_mut();
+        site_buf[20..24].copy_from_slice(&[0x01, 0x00, 0x00, 0x00]);
+
+        let record_buf = vcf::variant::RecordBuf::try_from_variant_record(&header, &record)?;
+        assert_eq!(record_buf.samples().values().count(), 1);
+
+        // n_sample = 16777215, n_fmt = 0
+        let site_buf = record.fields_mut().site_buf_mut();
+        site_buf[20..24].copy_from_slice(&[0xff, 0xff, 0xff, 0x00]);
+
+        assert!(matches!(
+            vcf::variant::RecordBuf::try_from_variant_record(&header, &record),
+            Err(e) if e.kind() == io::ErrorKind::InvalidData
+        ));
+
+        Ok(())
+    }
 }
